@@ -78,9 +78,10 @@ def apr_fn():
 
 def h_apr(tag, fmt, ctype, promoted, nondet, size):
     body = '''
+%s vp_in_v;
 void harness(void) {
   vp_one = 1; g_len = 0;
-  %s v = %s();
+  %s v = %s(); vp_in_v = v;
   apr(0, "%s", (%s)v);
   __CPROVER_assert(g_len == 1 + %d, "apr wrote the tag byte and the value bytes");
   __CPROVER_assert(g_out[0] == '%s', "apr wrote the tag");
@@ -90,10 +91,11 @@ void harness(void) {
   for (size_t k = 0; k < sizeof back; ++k) __CPROVER_assert(a[k] == b[k], "value bytes are the object representation of the value");
   VP_REACH("end");
 }
-''' % (ctype, nondet, fmt, promoted, size, tag, ctype)
+''' % (ctype, ctype, nondet, fmt, promoted, size, tag, ctype)
     body = body.replace('  __CPROVER_assert(__CPROVER_array_equal == 0 || 1, "unused");\n', '')
-    return Harness('C03.apr.%s' % tag, 'C03', [APR_PRE, apr_fn(), body], plain=True,
-                   note='real variadic body, constant format string: loops fully unwound', stubs=['fwrite (ghost byte buffer)'])
+    return Harness('C03.apr.%s' % tag, 'C03', [APR_PRE, apr_fn(), body], plain=True, inputs=['vp_in_v'],
+                   note='real variadic body, constant format string: loops fully unwound', stubs=['fwrite (ghost byte buffer)'],
+                   replay=lambda lead, inputs, obs: replay_apr(tag, inputs))
 
 
 NPUT_PRE = '''
@@ -163,6 +165,47 @@ void harness(void) {
 ''']
     return Harness('C03.nput.roundtrip', 'C03', parts, plain=True, inputs=['vp_in_r'], timeout=900,
                    note='loop-free over one fully symbolic double: complete', replay=replay_nput)
+
+
+PROBES = {'s': ['0', '1', '-1', '32767', '-32768'], 'l': ['32768', '-32769', '100000', '2147483647', '-2147483648'],
+          'n': ['0.5', '1e300', '-2147483649', 'hex:7ff8000000000000']}
+
+
+def replay_apr(tag, inputs):
+    """apr is reached natively through nput: the verifier's value (if any) and the fixed probes of the tag's class are written
+    by the real BinaryFormatter::nput and read back by the real ReadConstant; the driver also compares the byte counts."""
+    vals = []
+    v = inputs.get('vp_in_v')
+    if v is not None:
+        vals.append(str(v).rstrip('fulUL'))
+    out, err, cmd = build_c03_replay()
+    if out is None:
+        return False, err, cmd
+    import subprocess
+    text = ''
+    for a in vals + PROBES[tag]:
+        p = subprocess.run([out, a], capture_output=True, text=True)
+        text += p.stdout + p.stderr
+        if p.returncode == 10:
+            return True, text[-2000:], ' '.join([out, a])
+    return False, text[-2000:], ''
+
+
+def build_c03_replay():
+    import os
+    import subprocess
+    from vp.run import BUILD, VERIF
+    repo = os.environ.get('VP_REPO', '/repo')
+    out = os.path.join(BUILD, 'replay', 'c03_replay')
+    os.makedirs(os.path.dirname(out), exist_ok=True)
+    srcs = ['nl-writer2/src/nl-writer2.cc', 'nl-writer2/src/nl-utils.cc', 'nl-writer2/src/dtoa.cc', 'src/nl-reader.cc',
+            'src/format.cc', 'src/os.cc', 'src/posix.cc', 'src/expr-info.cc']
+    cmd = ['g++', '-std=c++17', '-w', '-O0', '-I', repo + '/include', '-I', repo + '/nl-writer2/include',
+           os.path.join(VERIF, 'replay', 'c03_replay.cc')] + [os.path.join(repo, x) for x in srcs] + ['-o', out]
+    p = subprocess.run(cmd, capture_output=True, text=True)
+    if p.returncode != 0:
+        return None, 'replay driver build failed: ' + p.stderr[-1500:], ' '.join(cmd)
+    return out, '', ' '.join(cmd)
 
 
 def replay_nput(lead, inputs, obs):
